@@ -384,6 +384,16 @@ func (c snipCase) Run() string {
 	if used := renderThroughUsedWriter(c.T.build().(snippet.Snippet)); used != fresh {
 		return "used-writer-differs fresh=" + fresh + " used=" + used
 	}
+	// one snippet value rendered twice: first into a file of package fmt (where `fmt.Stringer` is written `Stringer`),
+	// then into the usual one — what a value renders to is decided by the file it goes into, each time
+	if again := guard(func() string {
+		s := c.T.build().(snippet.Snippet)
+		b := bytes.NewBuffer(nil)
+		gengo.NewSnippetWriter(b, namer.NameSystems{"raw": namer.NewRawNamer("fmt", namer.NewDefaultImportTracker())}).Render(s)
+		return "ok " + hx(renderSnippet(s))
+	}); again != fresh {
+		return "second-rendering-of-the-same-value-differs fresh=" + fresh + " second=" + again
+	}
 	if kept := guard(func() string { return "ok " + hx(renderSnippet(c.T.buildScribbled())) }); kept != fresh {
 		return "arguments-changed-after-the-call-show fresh=" + fresh + " after=" + kept
 	}
